@@ -2,8 +2,9 @@
 
    FlagInv st: whenever damage is pending, needs_expose and needs_later_processing are set,
    and whenever a restack is queued needs_later_processing is set -- so the next flush does
-   the work.  Every call a handler can make into the window layer keeps it (with no side
-   condition at all), hence so does a whole flush with ARBITRARY scripted calls
+   the work.  Every call a handler can make into the window layer -- expose, show, hide, restack,
+   close, destroy -- keeps it (with no side condition at all; a close only adds damage through
+   win_expose and removes queue entries), hence so does a whole flush with ARBITRARY scripted calls
    (flush_re_flaginv).
 
    DmgOK st: the root window's rectangle is non-empty, and unless a rectangle-set loop ran
@@ -44,15 +45,15 @@ Definition DmgOK (st : root) : Prop :=
 (* states that differ in the tree (but not in the root's rectangle) and in raised flags  *)
 
 Definition same_dmg (st X : root) : Prop :=
-  r_damage X = r_damage st /\ r_fault X = r_fault st /\ r_queue X = r_queue st /\
+  r_damage X = r_damage st /\ r_fault X = r_fault st /\ (r_queue X <> [] -> r_queue st <> []) /\
   r_nexp X = r_nexp st /\ (r_later st = true -> r_later X = true) /\
   w_rect (t_info (r_tree X)) = w_rect (t_info (r_tree st)).
 
 Lemma same_dmg_flaginv st X : same_dmg st X -> FlagInv st -> FlagInv X.
 Proof.
-  intros (Hd & _ & Hq & Hn & Hl & _) [H1 H2]. unfold FlagInv. rewrite Hd, Hq, Hn. split.
+  intros (Hd & _ & Hq & Hn & Hl & _) [H1 H2]. unfold FlagInv. rewrite Hd, Hn. split.
   - intros H. destruct (H1 H) as [A B]. split; [exact A|apply Hl; exact B].
-  - intros H. apply Hl. apply H2. exact H.
+  - intros H. apply Hl. apply H2. apply Hq. exact H.
 Qed.
 
 Lemma same_dmg_dmgok st X : same_dmg st X -> DmgOK st -> DmgOK X.
@@ -150,6 +151,41 @@ Proof.
     rewrite update_root_rect by apply keeps_rect_unlink. exact H1.
 Qed.
 
+(* win_close: a tree / orphans / queue change seen by same_dmg, then possibly one expose *)
+Lemma win_close_shape cfg st id :
+  win_close cfg st id = st \/
+  exists X, same_dmg st X /\
+    (win_close cfg st id = X \/ exists y r, win_close cfg st id = win_expose X y (Some r)).
+Proof.
+  unfold win_close. destruct (t_chain id (r_tree st)) as [[|w [|p rest]]|]; try (left; reflexivity).
+  right. cbv zeta.
+  set (tr2 := t_update (fun j => if opt_eqb (w_fchild j) id then set_fchild j None else j) (t_id p)
+                       (t_upd_kids (kids_remove id) (t_id p) (r_tree st))).
+  set (st00 := set_queue (set_orphans (set_tree st tr2) (w :: r_orphans st))
+                         (filter (fun e => match e with (_, _, w') => negb (id_in w' (sub_ids w)) end) (r_queue st))).
+  set (st0 := match r_dsrc st00 with
+              | Some src => if negb (d_drag_stale cfg) && id_in src (sub_ids w)
+                            then set_drag st00 (r_dragging st00) (r_lbtn st00) (r_lline st00) (r_lcol st00) None
+                            else st00
+              | None => st00
+              end).
+  set (st1 := if opt_eqb (w_fchild (t_info p)) id && negb (d_chain_norestore cfg)
+              then request_restore st0 else st0).
+  assert (H00 : same_dmg st st00).
+  { unfold same_dmg, st00; cbn [r_damage r_fault r_queue r_nexp r_later r_tree set_queue set_orphans set_tree].
+    split; [reflexivity|]. split; [reflexivity|]. split.
+    - intros H E. apply H. rewrite E. reflexivity.
+    - split; [reflexivity|]. split; [tauto|].
+      unfold tr2. rewrite update_root_rect by apply keeps_rect_unlink. rewrite upd_kids_root_info. reflexivity. }
+  assert (H0 : same_dmg st st0).
+  { unfold st0. destruct (r_dsrc st00) as [src|]; [|exact H00].
+    destruct (negb (d_drag_stale cfg) && id_in src (sub_ids w)); [|exact H00].
+    unfold same_dmg in *; cbn [r_damage r_fault r_queue r_nexp r_later r_tree set_drag]. exact H00. }
+  assert (H1 : same_dmg st st1) by (unfold st1; apply same_dmg_cond; exact H0).
+  exists st1. split; [exact H1|].
+  destruct (w_vis (t_info w)); [right; eexists _, _; reflexivity|left; reflexivity].
+Qed.
+
 Lemma win_restack_flaginv st k id : FlagInv st -> FlagInv (win_restack st k id).
 Proof.
   intros [H1 H2]. unfold win_restack. destruct (t_parent_id id (r_tree st)) as [pid|]; [|split; assumption].
@@ -163,7 +199,13 @@ Qed.
 
 Theorem run_act_flaginv cfg st a : FlagInv st -> FlagInv (run_act cfg st a).
 Proof.
-  intros H. destruct a as [id r|id|id|k id]; cbn [run_act].
+  intros H.
+  assert (Hclose : forall id, FlagInv (win_close cfg st id)).
+  { intros id. destruct (win_close_shape cfg st id) as [E|(X & HX & [E|(y & r & E)])]; rewrite E.
+    - exact H.
+    - apply (same_dmg_flaginv st X HX H).
+    - apply win_expose_flaginv. apply (same_dmg_flaginv st X HX H). }
+  destruct a as [id r|id|id|k id|id|id]; cbn [run_act]; try apply Hclose.
   - apply win_expose_flaginv. exact H.
   - destruct (win_show_shape cfg st id) as [E|(X & y & ex & HX & E & _)]; rewrite E; [exact H|].
     apply win_expose_flaginv. apply (same_dmg_flaginv st X HX H).
@@ -286,7 +328,13 @@ Qed.
 
 Theorem run_act_dmgok cfg st a : DmgOK st -> DmgOK (run_act cfg st a).
 Proof.
-  intros H. destruct a as [id r|id|id|k id]; cbn [run_act].
+  intros H.
+  assert (Hclose : forall id, DmgOK (win_close cfg st id)).
+  { intros id. destruct (win_close_shape cfg st id) as [E|(X & HX & [E|(y & r & E)])]; rewrite E.
+    - exact H.
+    - apply (same_dmg_dmgok st X HX H).
+    - apply win_expose_dmgok. apply (same_dmg_dmgok st X HX H). }
+  destruct a as [id r|id|id|k id|id|id]; cbn [run_act]; try apply Hclose.
   - apply win_expose_dmgok. exact H.
   - destruct (win_show_shape cfg st id) as [E|(X & y & ex & HX & E & _)]; rewrite E; [exact H|].
     apply win_expose_dmgok. apply (same_dmg_dmgok st X HX H).
